@@ -286,7 +286,8 @@ def gen_kernel_calls(rng, n_each):
             rr = rng.choice([0.5, 1.0, 2.0])
             # point on the line and direction along it (counter-clockwise boundary of the inside)
             hps.append([rr * nx, rr * ny, -ny, nx])
-        out += [call(H, "intersect_halfplanes", [A(hps)], rel=1e-7),
+        out += [call("distance3d.hydroelastic_contact._forces", "tesselate_ordered_polygon", [rng.choice([3, 4, 5, 6, 7, 8])], cls="bool"),
+                call(H, "intersect_halfplanes", [A(hps)], rel=1e-7),
                 call(H, "cross2d", [A(a[:2]), A(b[:2])]),
                 call(H, "intersect_two_halfplanes", [A(hps[0]), A(hps[1])], rel=1e-7),
                 call(H, "point_outside_of_halfplane", [A(hps[0]), A(a[:2])], cls="bool")]
